@@ -67,6 +67,8 @@ pub fn lookup(name: &str) -> Option<(&'static str, ScenFn)> {
         "mtu" => (MTU_RULE, mtu as ScenFn),
         "hostile" => (HOSTILE_RULE, hostile as ScenFn),
         "frames" => (crate::frames::FRAMES_RULE, frames as ScenFn),
+        "closedinj" => (crate::scen_conn::CLOSEDINJ_RULE, crate::scen_conn::closedinj as ScenFn),
+        "offpath" => (crate::scen_conn::OFFPATH_RULE, crate::scen_conn::offpath as ScenFn),
         _ => return None,
     })
 }
@@ -1479,7 +1481,7 @@ fn varint_bytes(v: u64) -> Vec<u8> {
 }
 
 /// Structure-aware mutation of a genuine datagram.
-fn hostile_mutate(rng: &mut Rng, g: &[u8], other: &[u8]) -> (Vec<u8>, &'static str) {
+pub fn hostile_mutate(rng: &mut Rng, g: &[u8], other: &[u8]) -> (Vec<u8>, &'static str) {
     let mut d = g.to_vec();
     if d.is_empty() {
         return (vec![0xc0], "empty");
